@@ -182,7 +182,7 @@ impl PoolView {
         self.info.asset_denoms.iter().map(|d| self.reserve(d)).collect()
     }
     pub fn decimals_of(&self, denom: &str) -> Option<u8> {
-        self.canon_index(denom).map(|i| self.info.asset_decimals[i])
+        self.canon_index(denom).and_then(|i| self.info.asset_decimals.get(i).copied())
     }
     pub fn is_cp(&self) -> bool {
         matches!(self.info.pool_type, pm::PoolType::ConstantProduct)
